@@ -1,0 +1,28 @@
+//go:build verif
+
+package dkg
+
+import "sort"
+
+// VerifPermute is a verification hook (build tag "verif" only). When set, the
+// packets a Protocol hands to ProcessDeals / ProcessResponses /
+// ProcessJustifications are first sorted by sender index and then permuted by
+// the returned permutation of 0..n-1, so that a simulator owns an order that
+// is otherwise the iteration order of a Go map.
+var VerifPermute func(n int) []int
+
+func verifOrder[T Packet](s []T) []T {
+	sort.SliceStable(s, func(i, j int) bool { return s[i].Index() < s[j].Index() })
+	if VerifPermute == nil {
+		return s
+	}
+	p := VerifPermute(len(s))
+	if len(p) != len(s) {
+		return s
+	}
+	out := make([]T, len(s))
+	for i, j := range p {
+		out[i] = s[j]
+	}
+	return out
+}
